@@ -1070,10 +1070,12 @@ class FortranFile:
                 while self.fixed_is_cont(tmp_line):
                     # The line that is continued: comment and blank lines may
                     # stand between the lines of a statement
+                    skipped = 0
                     while line_ind >= 0 and self.fixed_is_comment(
                         self.get_line(line_ind, pp_content)
                     ):
                         line_ind -= 1
+                        skipped += 1
                     if line_ind < 0:
                         break
                     # Blank out the continuation mark of the line we come from
@@ -1082,6 +1084,8 @@ class FortranFile:
                         first = False
                     else:
                         pre_lines[-1] = " " * 6 + pre_lines[-1][6:]
+                    # One entry per line of the file, as in the forward search
+                    pre_lines += [""] * skipped
                     tmp_line = self.get_line(line_ind, pp_content)
                     pre_lines.append(self.fixed_strip_comment(tmp_line))
                     line_ind -= 1
@@ -1091,6 +1095,7 @@ class FortranFile:
                     curr_line = (
                         " " * opt_cont_match.end(0) + curr_line[opt_cont_match.end(0) :]
                     )
+                skipped = 0
                 while line_ind >= 0:
                     tmp_line = self.get_line(line_ind, pp_content)
                     # Preprocessor, empty and comment lines may stand between
@@ -1101,6 +1106,7 @@ class FortranFile:
                         or FRegex.FREE_COMMENT.match(tmp_line)
                     ):
                         line_ind -= 1
+                        skipped += 1
                         continue
                     tmp_line = strip_strings(tmp_line, maintain_len=True)
                     tmp_no_comm = tmp_line.split("!")[0]
@@ -1114,6 +1120,9 @@ class FortranFile:
                             + tmp_no_comm[opt_cont_match.end(0) :]
                         )
                     if cont_ind >= 0:
+                        # One entry per line of the file, as in the forward search
+                        pre_lines += [""] * skipped
+                        skipped = 0
                         pre_lines.append(tmp_no_comm[:cont_ind])
                     else:
                         break
